@@ -738,6 +738,23 @@ func ruleTypedStore(rule string) RuleFn {
 					rejects = false
 				}
 			}
+			// (round 14) ... and the test covers every grouped result: the group key is read only behind its
+			// not-flatten edge (a Flatten test nested under another condition lets the other branch through)
+			notFlat := an.BoolEdges(fn, func(v ssa.Value) bool { return strings.HasSuffix(an.Norm(v), ".(dig.resultGrouped)#0.Flatten") }, false)
+			reads := 0
+			an.Instrs(fn, func(in ssa.Instruction) {
+				v, isV := in.(ssa.Value)
+				if !isV || !strings.HasSuffix(an.Norm(v), ".(dig.resultGrouped)#0.Group") {
+					return
+				}
+				reads++
+				if hit, _ := an.PathTo(fn, nil, an.IsInstr(in), an.NewGates().AddEdges(notFlat...)); hit != nil {
+					rejects = false
+				}
+			})
+			if reads == 0 {
+				rejects = false
+			}
 			if rejects {
 				ok, where = true, "findResultKeys rejects flatten results of decorators"
 			}
